@@ -341,9 +341,61 @@ def genPermRelCase (idx : Nat) : Gen Case := do
   let vs ← shuffle (vs.map (wrapVal w))
   pure (mkCmp s!"C06-r{idx}" s!"permrel/{ns.length}cols/w{w}" vs)
 
+/-! ### multi-valued dictionaries (a literal rejects a repeated key: they only arise from `with` / `|`)
+
+The values under one key are a small frozen set, which iterates in INSERTION order: the same dictionary is built in
+different insertion orders, next to neighbours that differ in one value and to single-valued dictionaries in between. -/
+
+/-- the dictionary with the entries `es`, inserted in this order by `with` or by `|` -/
+def multiDictVal (es : List (Val × Val)) (useWith : Bool) : Val :=
+  match es with
+  | [] => ofLitVal (.set [])
+  | (k0, v0) :: rest =>
+    let src := rest.foldl (fun acc (e : Val × Val) =>
+      if useWith then "(" ++ acc ++ " with (@: " ++ e.1.src ++ ", @value: " ++ e.2.src ++ "))"
+      else "(" ++ acc ++ " | {" ++ e.1.src ++ ": " ++ e.2.src ++ "})") ("{" ++ k0.src ++ ": " ++ v0.src ++ "}")
+    ⟨src, Impl.build (es.map (fun e => .entryT e.1.rep e.2.rep))⟩
+
+def genMultiEntries : Gen (List (Val × Val)) := do
+  let num (i : Int) := ofLitVal (.num i)
+  let vpool : List Val := [num 1, num 2, num 3, num 4, ofLitVal (.str 0 [97]), ofLitVal (.set [.num 1])]
+  let k1 ← pick [num 1, ofLitVal (.str 0 [107])]
+  let n1 ← rand 2
+  let vs1 := (← shuffle vpool).take (n1 + 2)
+  let second ← chance 1 2
+  let n2 ← rand 2
+  let vs2 := (← shuffle vpool).take (n2 + 1)
+  pure (vs1.map (fun v => (k1, v)) ++ (if second then vs2.map (fun v => (num 2, v)) else []))
+
+def genMultiDict : Gen Val := do
+  pure (multiDictVal (← shuffle (← genMultiEntries)) (← chance 1 2))
+
+/-- the same multi-valued dictionary in two insertion orders, a neighbour (one value replaced), a single-valued one -/
+def genMultiDictCase (idx : Nat) : Gen Case := do
+  let es ← genMultiEntries
+  let x := multiDictVal es true
+  let y := multiDictVal es.reverse (← chance 1 2)
+  let num (i : Int) := ofLitVal (.num i)
+  let j ← rand es.length
+  let nv ← pick [num 0, num 2, num 3, num 5, ofLitVal (.str 0 [98])]
+  let nb := es.zipIdx.map (fun (e, i) => if i == j then (e.1, nv) else e)
+  let z := multiDictVal (← shuffle nb) (← chance 1 2)
+  let z2 := multiDictVal (← shuffle nb).reverse (← chance 1 2)
+  let single := ofLitVal (.dict [(.num 1, .num (← randInt 1 4))])
+  let w3 := multiDictVal (← shuffle es) false
+  let m ← rand 4
+  let vs := match m with
+    | 0 => [x, y, z]
+    | 1 => [x, y, single]
+    | 2 => [x, z, z2, single]
+    | _ => [x, y, w3, z, single]
+  let w ← rand 7
+  let vs ← shuffle (vs.map (wrapVal w))
+  pure (mkCmp s!"C06-m{idx}" s!"multidict/w{w}" vs)
+
 /-- keys whose printed text and whose `<` order disagree: offsets, holes, mixed kinds -/
 def genKeyVal : Gen Val := do
-  let r ← rand 13
+  let r ← rand 14
   let off ← randInt (-1) 2
   let num (i : Int) := ofLitVal (.num i)
   match r with
@@ -367,6 +419,7 @@ def genKeyVal : Gen Val := do
   | 9 => do pure (ofLitVal (.tup [("a", .str (← randInt 0 1) [97 + (← rand 2)])]))
   | 10 => do pure (setVal [ofLitVal (.str off [97 + (← rand 2)])])
   | 11 => genPermRel
+  | 12 => genMultiDict
   | _ => genVal 1
 
 /-- 4–8 keys for every client of the order -/
@@ -508,6 +561,7 @@ def gen (seed n : Nat) (thorough : Bool) : List Case := Id.run do
       else if k == 3 || k == 10 || k == 16 then (genCrossedCase i).run (seedOf seed (600000 + i))
       else if k == 5 || k == 12 || k == 17 then (genClientsCase i).run (seedOf seed (600000 + i))
       else if k == 7 || k == 14 then (genPermRelCase i).run (seedOf seed (600000 + i))
+      else if k == 1 || k == 11 then (genMultiDictCase i).run (seedOf seed (600000 + i))
       else (genCase i (k % 3 == 2) (thorough && i % 4 == 0)).run (seedOf seed (600000 + i))
     out := c :: out
   pure out.reverse
